@@ -1,5 +1,6 @@
 #!/usr/bin/env bash
-# Applicability audit for the deterministic-simulation family (DESIGN.md §2, §7).
+# Applicability audit for the deterministic-simulation family (round 1; audit/ROUND1-DESIGN.md
+# §2, §7; kept in round 2 as the premise tripwire behind DESIGN.md §0 and §8).
 #
 # This is NOT a property check. It is not listed under MANIFEST.checks, it
 # never prints "VIOLATION", and it says nothing about whether C01-C20 hold.
@@ -59,7 +60,9 @@ echo "applicability audit of $REPO (seed $SEED)"
 # the last item of its file, so cut from that attribute to EOF. Comments are
 # stripped so prose ("thread", "static") cannot trip the scan.
 echo "[1/5] token scan of non-test sources"
-SRC_FILES=$(find "$REPO/src" "$REPO/yuvxyb-math/src" -name '*.rs' | sort)
+# src/verif.rs exists only under the off-by-default `verif-hooks` feature (the simulator's yield
+# hook and index assertions); the shipped library does not contain it.
+SRC_FILES=$(find "$REPO/src" "$REPO/yuvxyb-math/src" -name '*.rs' ! -path "$REPO/src/verif.rs" | sort)
 [ -n "$SRC_FILES" ] || die "no sources under $REPO/src"
 strip() { awk '/^[[:space:]]*#\[cfg\(test\)\]/{exit} {print}' "$1" | sed -E 's://.*$::'; }
 PAT_SEAMS='std::thread|thread::|thread_local|std::sync|sync::|Mutex|RwLock|Condvar|Barrier|mpsc|Atomic[A-Z]|atomic::|OnceLock|OnceCell|Once\b|LazyLock|LazyCell|lazy_static|once_cell|Cell<|RefCell|UnsafeCell|static[[:space:]]+(mut[[:space:]]+)?[A-Z_]+[[:space:]]*:|std::time|Instant|SystemTime|Duration|std::env|env::|std::fs|fs::|std::io|io::|std::net|std::process|File\b|Read\b|Write\b|BufRead|HashMap|HashSet|RandomState|rand::|getrandom|async[[:space:]]|\.await|Future|spawn|rayon|tokio|crossbeam|parking_lot|extern[[:space:]]+"|#\[link|libc::|try_reserve|catch_unwind|is_x86_feature_detected|is_aarch64_feature_detected|\bA?Rc<|\bA?Rc::|impl[[:space:]]+Drop'
@@ -176,7 +179,7 @@ fi
 
 echo
 if [ ${#changed[@]} -eq 0 ]; then
-  echo "PREMISE-HOLDS: no schedule, clock, I/O, RNG or shared-mutable-state seam in yuvxyb; C01-C20 remain not applicable to deterministic simulation"
+  echo "PREMISE-HOLDS: no schedule, clock, I/O, RNG or shared-mutable-state seam in yuvxyb (default features): the sixteen numeric properties remain not applicable to deterministic simulation, and the independence clauses of C07/C11/C12/C15 hold for the reason DESIGN.md §0 gives"
   exit 0
 fi
 for c in "${changed[@]}"; do echo "PREMISE-CHANGED: $c"; done
